@@ -26,7 +26,7 @@ def run(c):
     progs = os.path.join(d, "hosts.jsonl")
     n = 1 if c.quick else 15
     with open(progs, "w") as f:
-        for kind, count, *extra in [("typed", 150 * n, 3), ("perturb", 100 * n), ("alias", 50 * n), ("groups", 80 * n), ("corpus", 0), ("nestgroup", 240 * n), ("holescope", 120 * n)]:
+        for kind, count, *extra in [("typed", 150 * n, 3), ("perturb", 100 * n), ("alias", 50 * n), ("groups", 80 * n), ("corpus", 0), ("nestgroup", 240 * n), ("nestpick", 0), ("holescope", 120 * n)]:
             f.write(vf.gv(["gen-programs", kind, c.seed, count] + list(extra)).stdout)
     tr, summ = os.path.join(d, "trace.ndjson"), os.path.join(d, "summary.json")
     vf.gv(["record-ctx", st["out"], tr, summ, 40 if c.quick else 10, progs], timeout=3000)
